@@ -302,6 +302,10 @@ def run(chk):
             blk = PC._block_of(n)
             prior = blk[: blk.index(n)]
             if isinstance(n, ast.Raise):
+                # a raise that a handler of the same function catches is no exit (the handler's own raise is looked at)
+                cls_ = K.raise_class(n)
+                if cls_ and any(prog.in_body_of(n, t_, "body") and cls_ in PC.handler_types(h_) for t_, h_ in K.enclosing_try_handlers(n)):
+                    continue
                 nr += 1
                 if any(M.contains(p, "resp.close()") for p in prior):
                     chk.ok("C06.closeonerror", n, f"redirect error exit `{K.short(n, 40)}` closes the response first")
